@@ -835,3 +835,61 @@ Proof. vm_compute. split; reflexivity. Qed.
 
 Example sym_ok_ex : sym_ok 160 /\ sym_ok 44 /\ sym_ok 128512 /\ sym_ok 0.
 Proof. unfold sym_ok, valid_rune. vm_compute. repeat split; discriminate. Qed.
+
+(* ---- ParseNumber is total: no panic, the fuel is never exhausted, the length is within the input ------- *)
+
+Lemma len_skipz_le {A} k (l : list A) : 0 <= k -> len (skipz k l) <= len l /\ (k <= len l -> len (skipz k l) = len l - k).
+Proof.
+  intros Hk. unfold len, skipz. rewrite skipn_length. lia.
+Qed.
+
+Lemma utf8_decode_len l r k : utf8_decode l = Some (r, k) -> k <= len l.
+Proof.
+  unfold utf8_decode. intros H.
+  repeat match type of H with
+         | match ?x with _ => _ end = _ => destruct x eqn:?
+         | (if ?c then _ else _) = _ => destruct c eqn:?
+         end; try discriminate; inversion H; subst; rewrite ?len_cons;
+    repeat match goal with |- context [len ?x] => lazymatch x with _ :: _ => fail | _ => pose proof (len_nonneg x); generalize dependent (len x); intros end end; lia.
+Qed.
+
+Lemma go_decode_len c t : snd (go_decode_rune (c :: t)) <= len (c :: t).
+Proof.
+  unfold go_decode_rune. destruct (utf8_decode (c :: t)) as [[r k]|] eqn:E; cbn [snd].
+  - apply utf8_decode_len in E. exact E.
+  - rewrite len_cons. pose proof (len_nonneg t). lia.
+Qed.
+
+Lemma pn_loop_total f : forall l gs ds sign num dec n hd, (length l < f)%nat -> 0 <= dec ->
+  exists num' dec' n', pn_loop f l gs ds sign num dec n hd = Ok (num', dec', n') /\ n <= n' <= n + len l /\ 0 <= dec'.
+Proof.
+  induction f as [|f IH]; intros l gs ds sign num dec n hd Hf Hdec; [lia|].
+  destruct l as [|c t]; [cbn; change (len (@nil Z)) with 0; eexists; eexists; eexists; split; [reflexivity|lia]|].
+  rewrite pn_loop_cons. cbn [length] in Hf. pose proof (len_nonneg t) as Ht. rewrite len_cons.
+  destruct (is_digit c).
+  - cbv zeta.
+    repeat match goal with |- context [if ?c then Ok _ else _] => destruct c; [eexists; eexists; eexists; split; [reflexivity|lia]|] end.
+    destruct (IH t gs ds sign (i64 (i64 (num * 10) + i64 (sign * byte (c - 48)))) (if hd then dec + 1 else dec) (n + 1) hd ltac:(lia) ltac:(destruct hd; lia))
+      as (a & b & k & -> & Hk & Hb). eexists; eexists; eexists; split; [reflexivity|lia].
+  - cbv zeta. match goal with |- context [if ?c then _ else Ok _] => destruct c; [|eexists; eexists; eexists; split; [reflexivity|lia]] end.
+    pose proof (go_decode_size c t) as Hs. pose proof (go_decode_len c t) as Hsl.
+    pose proof (length_skipz_lt (snd (go_decode_rune (c :: t))) c t ltac:(lia)) as Hl. cbn [length] in Hl.
+    destruct (len_skipz_le (snd (go_decode_rune (c :: t))) (c :: t) ltac:(lia)) as [_ Heq]. specialize (Heq Hsl). rewrite len_cons in Heq, Hsl.
+    destruct (IH (skipz (snd (go_decode_rune (c :: t))) (c :: t)) gs ds sign num dec (n + snd (go_decode_rune (c :: t)))
+                 (if fst (go_decode_rune (c :: t)) =? ds then true else hd) ltac:(lia) Hdec) as (a & b & k & -> & Hk & Hb).
+    eexists; eexists; eexists; split; [reflexivity|]. split; [lia|exact Hb].
+Qed.
+
+(* ParseNumber never panics, never runs out of fuel, and reports a length within the input *)
+Lemma parse_number_total_proof : forall b gs ds,
+  exists num dec n, parse_number b gs ds = Ok (num, dec, n) /\ 0 <= n <= len b /\ 0 <= dec.
+Proof.
+  intros b gs ds. unfold parse_number.
+  destruct b as [|c t]; [cbn; exists 0, 0, 0; split; [reflexivity|change (len (@nil Z)) with 0; lia]|].
+  rewrite len_cons. pose proof (len_nonneg t).
+  destruct (c =? 45).
+  - cbn [tl]. destruct (pn_loop_total (S (length (c :: t))) t gs ds (-1) 0 0 1 false ltac:(cbn [length]; lia) ltac:(lia))
+      as (a & d & k & -> & Hk & Hd). exists a, d, k. split; [reflexivity|lia].
+  - destruct (pn_loop_total (S (length (c :: t))) (c :: t) gs ds 1 0 0 0 false ltac:(lia) ltac:(lia))
+      as (a & d & k & -> & Hk & Hd). rewrite len_cons in Hk. exists a, d, k. split; [reflexivity|lia].
+Qed.
